@@ -55,6 +55,10 @@ def run(ctx: Context) -> None:
     ctx.rule(r1_no_mutation)
     ctx.rule(r2_surrogate)
     ctx.rule(r3_best_batch)
+    # what the calibrator receives is what sample_batch proposed: the wrapper BaseSampler.sample only ever replaces repeated rows by further rows drawn
+    # by the same sample_batch (shared with C12) - anything else slipped into the batch is neither a pool candidate nor a displaced best point
+    from . import c12
+    ctx.rule(c12.sample_rules)
 
 
 def r1_no_mutation(ctx: Context) -> None:
